@@ -182,6 +182,68 @@ def oracle_c20(program, po, so):
 oracle.oracle_c20 = oracle_c20
 
 
+def long_tables(v):
+    """tables longer than any schema-inference window (100 rows by default in polars.read_database): a column that is NULL in
+    its first 100+ rows and holds values afterwards - int, float, string, bool - exported from SQLite through every target must
+    equal the export of the same pipeline on Polars"""
+    import polars as pl
+    import pydiverse.transform as pdt
+    import sqlalchemy as sqa
+
+    n_bad = 0
+    for n_null, n_val in ((100, 5), (130, 40), (250, 1)):
+        n = n_null + n_val
+        df = pl.DataFrame({
+            "k": list(range(n)),
+            "i": [None] * n_null + list(range(n_val)),
+            "f": [None] * n_null + [x + 0.5 for x in range(n_val)],
+            "s": [None] * n_null + [f"v{x}" for x in range(n_val)],
+            "b": [None] * n_null + [x % 2 == 0 for x in range(n_val)],
+        }, schema={"k": pl.Int64, "i": pl.Int64, "f": pl.Float64, "s": pl.String, "b": pl.Boolean})
+        eng = sqa.create_engine("sqlite://")
+        df.write_database("c20long", eng)
+        for shape in ("plain", "mutate", "left_join"):
+            def build(t, u):
+                if shape == "plain":
+                    return t >> pdt.arrange(t.k)
+                if shape == "mutate":
+                    return t >> pdt.mutate(j=t.i + 1, g=t.f * 2, u=t.s + "x") >> pdt.arrange(t.k)
+                return t >> pdt.select(t.k) >> pdt.left_join(u, t.k == u.k + n_null) >> pdt.arrange(t.k)
+            frames = {}
+            for be in ("polars", "sqlite"):
+                if be == "polars":
+                    t = pdt.Table(df, name="c20long")
+                    u = pdt.Table(df.filter(pl.col("k") < n_val).rename({"k": "k"}), name="c20u")
+                else:
+                    t = pdt.Table("c20long", pdt.SqlAlchemy(eng))
+                    df.filter(pl.col("k") < n_val).write_database("c20u", eng, if_table_exists="replace")
+                    u = pdt.Table("c20u", pdt.SqlAlchemy(eng))
+                try:
+                    q = build(t, u)
+                    out = q >> pdt.export(pdt.Polars())
+                    frames[be] = ("ok", out.columns, [[repr(x) for x in row] for row in out.rows()], q >> pdt.export(pdt.DictOfLists()))
+                except Exception as e:  # noqa: BLE001
+                    frames[be] = ("error", type(e).__name__, str(e)[:200])
+            a, b = frames["polars"], frames["sqlite"]
+            same = a[0] == b[0] == "ok" and a[1] == b[1] and len(a[2]) == len(b[2]) and all(
+                len(x) == len(y) and all(oracle.cell_eq(_unrepr(p), _unrepr(q)) for p, q in zip(x, y)) for x, y in zip(a[2], b[2]))
+            if not same:
+                n_bad += 1
+                v.violation(f"long-table-{shape}-{n_null}", dict(kind="long_table_export_differs", shape=shape, leading_nulls=n_null, rows=n,
+                                                                 polars=(a[0], a[1]) if a[0] == "ok" else a, sqlite=(b[0], b[1]) if b[0] == "ok" else b,
+                                                                 how="harness/c20.py:long_tables"))
+    return n_bad
+
+
+def _unrepr(s):
+    import ast
+
+    try:
+        return ast.literal_eval(s)
+    except Exception:  # noqa: BLE001
+        return s
+
+
 def run(tier: str, seed: int) -> int:
     v = Verdict(PROP, tier, seed)
     rng = random.Random(seed)
@@ -243,6 +305,8 @@ def run(tier: str, seed: int) -> int:
         r, d = items[0]
         v.violation("-".join(str(k) for k in key if k), dict(kind=key[0], target=key[1], exc=key[2], n_cases=len(items), first_diff=d,
                                                               program=(r["program"] if r else None), seeds=[x[0]["seed"] for x in items[:8] if x[0]]))
+    n_long = long_tables(v)
+    new = new + [(None, dict(kind="long_table"))] * n_long
     broken = []
     if not po["ok"]:
         broken.append(dict(kind="proof", errors=po["build"].get("errors"), bad_axioms=po.get("bad_axioms"), forbidden=po.get("forbidden_hits"),
